@@ -208,7 +208,7 @@ def run_model_tie(ctx):
     """Same propositional programs through the Coq machine (two different
     schedules, well-founded semantics, exact rationals) and through the real
     default engine; query probabilities must agree to 1e-9."""
-    n = ctx.n(24, 400)
+    n = ctx.n(20, 200)
     gens = [gen_prop(ctx.rng) for _ in range(n)]
     outs = pl.pmap(_tie_worker, gens, jobs=ctx.jobs, chunksize=2)
     cases, metas, differ = [], [], []
@@ -286,7 +286,7 @@ def run(ctx):
     totals = {"batches": 0, "all_e": 0, "permuted": 0, "nontrivial_runs": 0, "timeouts": [], "shrunk": {}, "path": path}
 
     # ---- corpus
-    nseeds = ctx.n(2, 12)
+    nseeds = ctx.n(1, 6)
     files = cs.corpus_files(vf.REPO, recursive=(ctx.tier == "thorough"))
     items, labels, excluded = [], [], {}
     for f in files:
@@ -303,8 +303,8 @@ def run(ctx):
     ctx.log("corpus done: %d files x %d seeds, permuted batches so far %d" % (len(items), nseeds, totals["permuted"]))
 
     # ---- generated programs
-    nprog = ctx.n(40, 800)
-    nseeds = ctx.n(5, 24)
+    nprog = ctx.n(40, 300)
+    nseeds = ctx.n(4, 12)
     items, labels = [], []
     for i in range(nprog):
         lines, feats = cs.gen_program(ctx.rng, malformed=(i % 5 == 4))
